@@ -13,8 +13,8 @@ History = sequence of executions of one statement (rebuilt freshly each time)
 under a sequence of maps, on one engine whose compiled cache is cleared at the
 start of the history: all map sequences of length <= 2 over the 16 "quick"
 maps (quick) / all 64 functions {None,s1,s2} -> {None,s1,s2,absent} singly and
-paired (either order) with each of the 10 maps with <= 1 key, all pairs of the
-16, plus length 3 over 6 maps (thorough).  A second family interleaves two
+paired (either order) with each of the first 7 maps with <= 1 key, all pairs of
+the 16, plus length 3 over 5 maps (thorough).  A second family interleaves two
 different statements sharing the same Table objects.
 
 Where the map is supplied is a further dimension ("level" shards): engine
@@ -76,7 +76,7 @@ META = dict(
     "contents and catalog of every attached schema)",
     design_ref="DESIGN.md §5 C16",
     level_text="15 statement / DDL shapes x 9 schema placements x every sequence of <=2 maps (16 maps quick; thorough: all 64 functions "
-    "singly and paired in either order with each of the 10 maps with <= 1 key, all pairs of the 16, length 3 over 6 maps) share one compiled cache per history; each execution is compared with the reference "
+    "singly and paired in either order with each of 7 maps with <= 1 key, all pairs of the 16, length 3 over 5 maps) share one compiled cache per history; each execution is compared with the reference "
     "construct whose tables carry the translated names, executed uncached on a twin database with three schemas. "
     "Exhaustive for the bound: a map frozen into the cache, a None-key slip or DDL ignoring the map within these shapes is found.",
     level_note="Trusted: the reference route (tables built with the translated schema, no map, no cache). Only SQLite executes; "
@@ -89,7 +89,7 @@ META = dict(
     bounds=dict(
         quick="15 shapes x 9 placements x all sequences of <=2 maps out of 16 (map at connection level); 2-statement interleavings over 6 maps; "
         "supply level: 8 shapes x 3 placements x 8-9 level modes x all sequences of <=2 maps out of 12",
-        thorough="13 shapes x 9 placements x each of the 64 maps singly and paired (either order) with each of the 10 maps with <=1 key; all pairs of the 16; all sequences of 3 maps out of 6; interleavings over 10 maps; "
+        thorough="13 shapes x 9 placements x each of the 64 maps singly and paired (either order) with each of 7 maps with <=1 key; all pairs of the 16; all sequences of 3 maps out of 5; interleavings over 8 maps; "
         "supply level: all 15 shapes x 9 placements x all level modes x all sequences of <=2 maps out of 12",
     ),
 )
@@ -346,13 +346,13 @@ def histories(tier):
         for m in allm:
             yield (m,)
         seen = set()
-        q10 = q[:10]
+        q10 = q[:7]  # {} and the six one-key maps onto a different schema / None
         for a, b in itertools.chain(itertools.product(q, q), itertools.product(allm, q10), itertools.product(q10, allm)):
             k = (F.map_key(a), F.map_key(b))
             if k not in seen:
                 seen.add(k)
                 yield (a, b)
-        yield from itertools.product(q[:6], repeat=3)
+        yield from itertools.product(q[:5], repeat=3)
 
 
 def changes(m, schemas):
@@ -426,7 +426,7 @@ def run_shard(shard, tier, rec):
                         )
         else:
             _, sx, sy = shard
-            ms = F.quick_maps()[:6] if tier == "quick" else F.quick_maps()[:10]
+            ms = F.quick_maps()[:6] if tier == "quick" else F.quick_maps()[:8]
             for s1, s2 in itertools.permutations(INTER_SHAPES, 2):
                 for m1, m2 in itertools.product(ms, repeat=2):
                     maps = (m1, m2, m2, m1)
